@@ -141,13 +141,13 @@ def sig_of(v: dict) -> str:
 # minimisation (tape-level delta debugging)
 
 
-def _reproduces(prop: str, values: list[int], rule: str, known: list[dict]) -> tuple[bool, dict | None, list[int]]:
+def _reproduces(prop: str, values: list[int], rule: str, known: list[dict], cause: dict | None = None) -> tuple[bool, dict | None, list[int]]:
     tape = Tape(replay=values)
     res = run_one(prop, tape)
     if res["harness"]:
         return False, None, values
     for v in res["violations"]:
-        if v["rule"] == rule and match_known(v, known) is None:
+        if v["rule"] == rule and match_known(v, known) is None and (cause is None or _norm(v["cause"]) == _norm(cause)):
             vals = list(tape.values)
             while vals and vals[-1] == 0:
                 vals.pop()
@@ -155,8 +155,8 @@ def _reproduces(prop: str, values: list[int], rule: str, known: list[dict]) -> t
     return False, None, values
 
 
-def minimise(prop: str, values: list[int], rule: str, known: list[dict], budget: int = 250) -> tuple[list[int], dict | None, int]:
-    ok, v, vals = _reproduces(prop, values, rule, known)
+def minimise(prop: str, values: list[int], rule: str, known: list[dict], budget: int = 250, cause: dict | None = None) -> tuple[list[int], dict | None, int]:
+    ok, v, vals = _reproduces(prop, values, rule, known, cause)
     if not ok:
         return values, None, 1
     best, bestv = vals, v
@@ -167,7 +167,7 @@ def minimise(prop: str, values: list[int], rule: str, known: list[dict], budget:
         if used >= budget:
             return False
         used += 1
-        ok, vv, consumed = _reproduces(prop, cand, rule, known)
+        ok, vv, consumed = _reproduces(prop, cand, rule, known, cause)
         if ok and (len(consumed), sum(consumed)) < (len(best), sum(best)):
             best, bestv = consumed, vv
             return True
@@ -210,10 +210,10 @@ def minimise(prop: str, values: list[int], rule: str, known: list[dict], budget:
     return best, bestv, used
 
 
-def _min_job(prop: str, values: list[int], rule: str, budget: int) -> tuple[list[int], dict | None, int]:
+def _min_job(prop: str, values: list[int], rule: str, cause: dict, budget: int) -> tuple[list[int], dict | None, int]:
     faulthandler.dump_traceback_later(900, exit=True)
     try:
-        return minimise(prop, values, rule, load_known(), budget)
+        return minimise(prop, values, rule, load_known(), budget, cause)
     finally:
         faulthandler.cancel_dump_traceback_later()
 
@@ -303,20 +303,21 @@ def main(argv: list[str] | None = None) -> int:
                 kid = k.get("id") or sig_of({"rule": k["signature"]["rule"], "cause": k["signature"].get("cause", {})})
                 known_hits[kid] = (k, known_hits.get(kid, (k, 0))[1] + 1)
             else:
-                new_by_sig.setdefault(v["rule"], []).append(v)
+                new_by_sig.setdefault(sig_of(v), []).append(v)
 
         replay_files: list[str] = []
         if new_by_sig and not pool_broken:
             os.makedirs(os.path.join(VERIF, "replays"), exist_ok=True)
             jobs = {}
-            for rule, vs in sorted(new_by_sig.items())[:6]:
+            for sig, vs in sorted(new_by_sig.items())[:8]:
                 vs.sort(key=lambda v: len(v["tape"]))
                 v = vs[0]
                 if args.no_minimise:
-                    jobs[rule] = (v, None)
+                    jobs[sig] = (v, None, vs)
                 else:
-                    jobs[rule] = (v, ex.submit(_min_job, prop, v["tape"], rule, getattr(mod, "MIN_BUDGET", 200)))
-            for rule, (v, fut) in jobs.items():
+                    jobs[sig] = (v, ex.submit(_min_job, prop, v["tape"], v["rule"], v["cause"], getattr(mod, "MIN_BUDGET", 200)), vs)
+            for n_sig, (sig, (v, fut, vs)) in enumerate(jobs.items()):
+                rule = v["rule"]
                 tape_vals, vmin, used = v["tape"], None, 0
                 if fut is not None:
                     try:
@@ -324,7 +325,7 @@ def main(argv: list[str] | None = None) -> int:
                     except Exception as e:  # noqa: BLE001
                         print(f"[{prop}] minimiser failed for {rule}: {e}", flush=True)
                 vv = vmin or v
-                path = os.path.join(VERIF, "replays", f"{prop}-{rule.split('.', 1)[-1]}-{v['seed']}.json")
+                path = os.path.join(VERIF, "replays", f"{prop}-{rule.split('.', 1)[-1]}-{v['seed']}-{n_sig}.json")
                 with open(path, "w") as f:
                     json.dump({"property": prop, "oracle_rule": rule, "seed": v["seed"], "run_index": v["idx"],
                                "verif_seed": seed, "tape": tape_vals, "original_tape_len": len(v["tape"]),
@@ -409,7 +410,7 @@ def write_evidence(mod, prop, tier, seed, total, wall, known_hits, new_by_sig, z
         "probes_never_hit": zero_probes,
         "harness_conditions": total["harness"],
         "known_findings_matched": {kid: n for kid, (k, n) in known_hits.items()},
-        "new_violation_rules": {r: len(vs) for r, vs in new_by_sig.items()},
+        "new_violation_signatures": {r: len(vs) for r, vs in new_by_sig.items()},
         "components": getattr(mod, "COMPONENTS", {}),
         "exhaustive": False,
     }
